@@ -1,5 +1,6 @@
 import CohdlVerif.Model.Coro
 import CohdlVerif.Lemmas.C01Top5
+import CohdlVerif.Lemmas.C01X7
 
 /-! C01 - theorems (moved from the design sketches; names prefixed C01.) -/
 open CohdlVerif.C01
@@ -282,10 +283,15 @@ example : closed 100 prog smBad rel = false := by decide
           ∃ f, ∀ f', f ≤ f' → (refTrace act cond f' p inp n (some (.start, s0))).map (·.2) =
             some (smTrace act cond sm inp n (0, s0)).2
 
-  PROVED below for the fragment `frag1` = skip | act | await c | await true | await false | if/else | while c |
-  while True, arbitrarily nested (every such program is well-formed: `frag1_wf`).  MISSING: `break`, `continue`,
-  `return`, awaited sub-coroutines (so a loop of the fragment is left only through its run-time condition).  The structural part of the proof (`compile_spec`: which blocks a translation
-  step may touch, for the whole grammar) and the heap / trace machinery are already general.
+  PROVED below: `C01.compile_correct_frag1` for `frag1` = skip | act | await c | await true | await false | if/else |
+  while c | while True, and (stage 1) `C01.compile_correct_partial` for `frag2` = `frag1` + `break` + `continue`,
+  arbitrarily nested (`C01.fragments`: frag1 ⊆ frag2 ⊆ wf).  MISSING in the end-to-end theorem: `return` and awaited
+  sub-coroutines (`call`).
+
+  What stages 2/3 still need (Lemmas/C01G*, C01S*, C01W*, C01X* hold the general machinery, proved for every
+  statement form except `call`): `simG_call` / `fwd_call` (list swap around the body, `ret` through the `callF` frame),
+  the plain-statement lemma with a `return` exit (a call whose body returns is plain), `NoTrLists` for calls, the
+  always-returning branch (`retAlways`) of `simG_ite`, and the assembling induction over `wf`.
 -/
 
 /-- for every program of fragment 1, every interpretation of actions and conditions, every environment behaviour
@@ -293,11 +299,25 @@ example : closed 100 prog smBad rel = false := by decide
     produces the machine `sm`, the complete data state of `sm` after `n` clocks equals the data state of the
     reference execution of the coroutine body (for every sufficiently large fuel of the reference interpreter, which
     is in particular defined) -/
-theorem C01.compile_correct_partial (p : Stmt) (hp : frag1 p = true) (sm : SM) (h : compileSM p = some sm)
+theorem C01.compile_correct_frag1 (p : Stmt) (hp : frag1 p = true) (sm : SM) (h : compileSM p = some sm)
     (inp : Nat → σ → σ) (s0 : σ) (n : Nat) :
     ∃ f, ∀ f', f ≤ f' → (refTrace act cond f' p inp n (some (.start, s0))).map (·.2) =
       some (smTrace act cond sm inp n (0, s0)).2 :=
-  compile_correct_frag1 act cond p hp sm h inp s0 n
+  CohdlVerif.C01.compile_correct_frag1 act cond p hp sm h inp s0 n
+
+/-- STAGE 1 of the generalisation: the same statement for fragment 2 = fragment 1 + `break` + `continue`
+    (`frag2 p false`: break / continue only inside loops; loops left through `break`, `continue` re-checking a
+    run-time condition or re-entering a `while True` body).  `compileSM p = some sm` excludes the designs the real
+    compiler rejects (`continue` in the first state of its loop). -/
+theorem C01.compile_correct_partial (p : Stmt) (hp : frag2 p false = true) (sm : SM) (h : compileSM p = some sm)
+    (inp : Nat → σ → σ) (s0 : σ) (n : Nat) :
+    ∃ f, ∀ f', f ≤ f' → (refTrace act cond f' p inp n (some (.start, s0))).map (·.2) =
+      some (smTrace act cond sm inp n (0, s0)).2 :=
+  CohdlVerif.C01.compile_correct_frag2 act cond p hp sm h inp s0 n
+
+/-- fragment 1 is contained in fragment 2, and fragment 2 in the well-formed programs -/
+theorem C01.fragments (p : Stmt) : (frag1 p = true → frag2 p false = true) ∧ (frag2 p false = true → wf p false false = true) :=
+  ⟨fun h => frag1_frag2 p h false, frag2_wf p false⟩
 
 /-- the structural theorem behind it holds for the WHOLE grammar: a translation step only touches its open blocks
     and the blocks it creates, open blocks / break / continue / return lists only receive such blocks, roots and
@@ -339,6 +359,11 @@ end CohdlVerif.C01.Example
 open CohdlVerif.C01.Example in
 /-- non-vacuity with loops: `prog2` is in the fragment and the mirror produces a machine for it -/
 example : frag1 prog2 = true ∧ (compileSM prog2).isSome = true := by decide
+
+open CohdlVerif.C01.Example in
+/-- non-vacuity of `C01.compile_correct_partial` (stage 1): the upstream loop + await + break + continue design
+    `Example.prog` is in fragment 2 and the mirror produces (exactly the real) machine for it -/
+example : frag2 prog false = true ∧ (compileSM prog).map (·.codes) = some sm.codes := by decide
 
 /-- the mirror rejects `continue` in the first state of its loop, as the real compiler does -/
 example : compileSM (.while_ (some 1) (.act 1 .cont) .skip) = none := by decide
